@@ -18,6 +18,13 @@ impl vstd::std_specs::convert::FromSpecImpl<mpsc::SendError> for anyhow::Error {
     uninterp spec fn from_spec(e: mpsc::SendError) -> anyhow::Error;
 }
 impl From<mpsc::SendError> for anyhow::Error { #[verifier::external_body] fn from(e: mpsc::SendError) -> anyhow::Error { unimplemented!() } }
+// R6 pieces of format!(..) (only used for error texts here: contents are not specified)
+#[verifier::external_body] pub fn vx_lit(s: &'static str) -> (r: String) { unimplemented!() }
+#[verifier::external_body] pub fn vx_cat(a: String, b: String) -> (r: String) { unimplemented!() }
+#[verifier::external_body] pub fn vx_disp<T>(t: &T) -> (r: String) { unimplemented!() }
+#[verifier::external_body] pub fn vx_dbg<T>(t: &T) -> (r: String) { unimplemented!() }
+// anyhow::Context::with_context: like context, the message is built lazily
+#[verifier::external_body] pub fn anyhow_with_context<T, E, F: FnOnce() -> String>(r: core::result::Result<T, E>, f: F) -> (o: anyhow::Result<T>) ensures o is Ok == r is Ok { unimplemented!() }
 // anyhow::Context::context on a Result: keeps Ok/Err
 #[verifier::external_body] pub fn anyhow_context<T>(r: anyhow::Result<T>, m: &str) -> (o: anyhow::Result<T>) ensures o is Ok == r is Ok, r matches Ok(v) ==> o == anyhow::Result::<T>::Ok(v) { unimplemented!() }
 
